@@ -351,7 +351,7 @@ def check_transformed(ctx: Ctx, fi: FuncInfo) -> None:
             missing = {"combinations": "an earlier statistic paired with itself or a later one with an earlier one", "combinations_with_replacement": "a later statistic paired with an earlier one",
                        "permutations": "a statistic paired with itself"}[kind]
             ctx.violation("C11-Q1", fi, lp, f"pairs come from `{unparse(lp.iter)}` and the identity {s1}(k) == {s2}(v) is evaluated once per pair: the ordered pair ({missing}) is never evaluated, "
-                          "although the identity is not symmetric in the two statistics")
+                          "although the identity is not symmetric in the two statistics", robust=True)
             return
         raise AnalysisError(f"{fi.where}: pairs formed with {kind}; how both directions are evaluated is not recognised")
     if not (isinstance(lp.iter, ast.Call) and call_name(lp.iter) and call_name(lp.iter)[-1] == "product" and len(lp.iter.args) == 2 and isinstance(lp.target, ast.Tuple) and len(lp.target.elts) == 2):
@@ -643,7 +643,7 @@ def _prime_range_form(ctx: Ctx, f: FuncInfo, lp: ast.For) -> None:
     if stop in [f"{r} + 1" for r in roots] + [f"1 + {r}" for r in roots]:
         ctx.ok("C11-PR", f.where, "every candidate d with d*d <= n is tried (range bound is the integer square root plus one)", lp, f)
     elif stop in roots:
-        ctx.violation("C11-PR", f, lp, f"candidates come from `{unparse(it)}`, which stops before {stop}: a divisor d with d*d == n is never tried, so squares of primes (25, 49, 121, ...) are reported prime")
+        ctx.violation("C11-PR", f, lp, f"candidates come from `{unparse(it)}`, which stops before {stop}: a divisor d with d*d == n is never tried, so squares of primes (25, 49, 121, ...) are reported prime", robust=True)
     else:
         raise AnalysisError(f"{f.where}: range bound `{stop}` not recognised")
     if len(lp.body) == 1 and isinstance(lp.body[0], ast.If) and not lp.body[0].orelse:
